@@ -94,6 +94,13 @@ theorem utf8_decode_ascii (bs : List Nat) (h : ∀ b ∈ bs, b < 128) : Utf8.dec
 theorem gem_non_ascii_rejected (s : List Char) (c : Char) (hm : c ∈ s) (h : 128 ≤ c.toNat) : Gem.parse s = none :=
   NonAscii.gem_reject s c hm h
 
+/-- Masterminds/semver and `gobin.ParseVersion`: the anchored expression
+    matches ASCII texts only, so a version text containing any rune from U+0080
+    up (or an ill-formed byte) is rejected by both. -/
+theorem semver_non_ascii_rejected (s : List Char) (c : Char) (hm : c ∈ s) (h : 128 ≤ c.toNat) :
+    Semver.parse s = none ∧ Semver.gobinParse s = none :=
+  NonAscii.semver_reject s c hm h
+
 /-- Maven: a version text containing a decimal digit of another script (a rune
     that `unicode.IsDigit` accepts and `big.Int.SetString` does not, e.g.
     U+0663) is rejected ("unable to parse number"), wherever it stands. -/
